@@ -12,10 +12,10 @@ import (
 
 func init() {
 	Registry["C14"] = c14
-	Metas["C14"] = Meta{Level: "other", NeedCG: true,
+	Metas["C14"] = Meta{Ref: true, Level: "other", NeedCG: true,
 		Technique: "static analysis: counted-once typestate and exhaustive threshold evaluation of the admin tally, dataflow identity of signed vs executed bytes, edge-dominance of the nonce/sender/quorum gates, effect ordering in ExecBlock, switch-table agreement",
-		Explain: "Static analysis of the governance path (gemmill/plugin/admin_op.go, state.ExecBlock). Decided: (R1) every signer's power enters the tally at most once; (R2) the threshold is pointwise 3x>2T; (R3) the bytes whose signatures are verified (cmd.Msg) are the bytes the request is parsed from; (R4) every recorded validator change is edge-dominated by sender==request address and nonce+1==account nonce, and ProcessAdminOP is reached from ExecTX/DeliverTx only under CheckMajor23; (R5) changes are applied to the NEXT validator set, at end of block, before the accumulator increment and SetBlockAndValidators, on the single ExecBlock path that all replicas (pbft, fast sync, raft, recovery) share; the per-block change list is reset on every exit of EndBlock; (R6) ProcessAdminOP and updateValidators handle the same command set; (R7) the cached total voting power is invalidated by Add/Update/Remove (shared with C16-R2). (R4 also) recording a change never depends on the node's own peer table. NOT decided: replay across histories at EVM level (the sender used for the nonce binding is taken from the precompile input, not from the EVM caller — noted, outside these rules).",
-		Assume: []string{"go-crypto VerifyBytes is sound", "json.Unmarshal is deterministic"},
+		Explain:   "Static analysis of the governance path (gemmill/plugin/admin_op.go, state.ExecBlock). Decided: (R1) every signer's power enters the tally at most once; (R2) the threshold is pointwise 3x>2T; (R3) the bytes whose signatures are verified (cmd.Msg) are the bytes the request is parsed from; (R4) every recorded validator change is edge-dominated by sender==request address and nonce+1==account nonce, and ProcessAdminOP is reached from ExecTX/DeliverTx only under CheckMajor23; (R5) changes are applied to the NEXT validator set, at end of block, before the accumulator increment and SetBlockAndValidators, on the single ExecBlock path that all replicas (pbft, fast sync, raft, recovery) share; the per-block change list is reset on every exit of EndBlock; (R6) ProcessAdminOP and updateValidators handle the same command set; (R7) the cached total voting power is invalidated by Add/Update/Remove (shared with C16-R2). (R4 also) recording a change never depends on the node's own peer table. NOT decided: replay across histories at EVM level (the sender used for the nonce binding is taken from the precompile input, not from the EVM caller — noted, outside these rules).",
+		Assume:    []string{"go-crypto VerifyBytes is sound", "json.Unmarshal is deterministic"},
 	}
 }
 
@@ -30,6 +30,7 @@ func c14(c *Ctx) {
 	c14R6(c)
 	valsetCacheRule(c, "R7")
 	c14R8(c)
+	shared(c, "C10", vmEquivShared)
 }
 
 func c14R3(c *Ctx) {
